@@ -122,6 +122,7 @@ def run_history(kind, rng, nmut, out):
     sorted_, eager, rejects = cfg_of(kind)
     uids = uids_for(kind)
     big = kind.split(':')[-1] == 'memory'
+    by_value = kind.split(':')[-1] in ('sqlite', 'redis-json', 'redis-pickle', 'mongo') and not kind.startswith('enfold')
     st = stores.make(kind)
     log = call_log(st)
     calls = []
@@ -159,7 +160,16 @@ def run_history(kind, rng, nmut, out):
                 return 'done'
             if op == 'get':
                 p = st.get(a[0])
-                return 'pol -' if p is None else 'pol %d' % pid_of(p)
+                r = 'pol -' if p is None else 'pol %d' % pid_of(p)
+                if p is not None and by_value and rng.random() < 0.15:
+                    # a reader changes the object it was handed: a backend that serializes hands out a fresh object for every
+                    # read, so what is stored - and what later reads return - stays as it was
+                    try:
+                        p.description = 'changed by a reader'
+                        out.count('reader-changed-returned-object')
+                    except Exception:
+                        pass
+                return r
             if op == 'all':
                 return show_pols(capped(st.get_all(a[0], a[1])))
             if op == 'retr':
